@@ -215,3 +215,59 @@ pub fn try_abelianization(nr_gens: usize, rels: &[Vec<i64>], max_bits: u64) -> O
     let d = if m.is_empty() || nr_gens == 0 { vec![] } else { try_smith_diagonal(&to_big(&m), max_bits)? };
     Some(abelian_invariants_from_diag(nr_gens, &d))
 }
+
+/// Same result as `try_abelianization`, for large presentations: generators that occur with
+/// exponent sum +-1 in some relation are eliminated first (exact i64 row operations, abandoned on
+/// overflow), which leaves the cokernel unchanged; the Smith form is computed on what remains.
+pub fn try_abelianization_fast(nr_gens: usize, rels: &[Vec<i64>], max_bits: u64) -> Option<Vec<BigInt>> {
+    let mut m = exponent_matrix(nr_gens, rels);
+    m.retain(|r| r.iter().any(|&x| x != 0));
+    let mut alive: Vec<bool> = vec![true; nr_gens];
+    let mut n_alive = nr_gens;
+    'outer: loop {
+        // a unit entry in the sparsest row that has one
+        let mut best: Option<(usize, usize, usize)> = None;
+        for (ri, row) in m.iter().enumerate() {
+            if let Some(c) = (0..nr_gens).find(|&c| alive[c] && (row[c] == 1 || row[c] == -1)) {
+                let w = row.iter().filter(|&&x| x != 0).count();
+                if best.map_or(true, |b| w < b.2) {
+                    best = Some((ri, c, w));
+                }
+            }
+        }
+        let (ri, c, _) = match best {
+            None => break,
+            Some(b) => b,
+        };
+        let prow = m[ri].clone();
+        let sign = prow[c];
+        let mut next = Vec::with_capacity(m.len());
+        for (k, row) in m.iter().enumerate() {
+            if k == ri {
+                continue;
+            }
+            let f = row[c] * sign;
+            if f == 0 {
+                next.push(row.clone());
+                continue;
+            }
+            let mut out = row.clone();
+            for j in 0..nr_gens {
+                match prow[j].checked_mul(f).and_then(|p| out[j].checked_sub(p)) {
+                    Some(v) => out[j] = v,
+                    None => break 'outer, // overflow: leave the rest to the BigInt route (m untouched)
+                }
+            }
+            if out.iter().any(|&x| x != 0) {
+                next.push(out);
+            }
+        }
+        m = next;
+        alive[c] = false;
+        n_alive -= 1;
+    }
+    let cols: Vec<usize> = (0..nr_gens).filter(|&c| alive[c]).collect();
+    let reduced: Vec<Vec<i64>> = m.iter().map(|r| cols.iter().map(|&c| r[c]).collect()).collect();
+    let d = if reduced.is_empty() || n_alive == 0 { vec![] } else { try_smith_diagonal(&to_big(&reduced), max_bits)? };
+    Some(abelian_invariants_from_diag(n_alive, &d))
+}
